@@ -196,6 +196,12 @@ type srcInput struct {
 type fileInfo struct {
 	imports []importDef
 	src     srcInput
+
+	// depth is the smallest import depth at which the file has been reached so far; expanded
+	// is set once its imports are known and are being followed from that depth. Both are only
+	// used with an import depth limit and are guarded by the retrievedList mutex.
+	depth    int
+	expanded bool
 }
 
 type retrievedListIndex string
@@ -409,6 +415,16 @@ func (p *Parser) collectSpecs(
 	filenameIndex := fileNameToIndex(source.filename)
 	retrieved.mutex.Lock()
 	if fi, has := retrieved.l[filenameIndex]; has {
+		// With a depth limit, a file first reached through a longer path had its imports followed
+		// from that greater depth, so some were cut although they are nearer than the limit through
+		// this path: follow them again from here.
+		var again []importDef
+		if maxImportDepth > 0 && currentImportDepth < fi.depth {
+			fi.depth = currentImportDepth
+			if fi.expanded {
+				again = fi.imports
+			}
+		}
 		retrieved.mutex.Unlock()
 		verifEvent(vt, "lost", source.filename, currentImportDepth, 0)
 
@@ -450,9 +466,9 @@ func (p *Parser) collectSpecs(
 			}
 		}
 
-		return nil
+		return p.collectImports(ctx, vt, source, again, reader, retrieved, maxImportDepth, currentImportDepth)
 	}
-	fi := &fileInfo{}
+	fi := &fileInfo{depth: currentImportDepth}
 	fi.src.src = source
 	retrieved.l[filenameIndex] = fi
 	retrieved.mutex.Unlock()
@@ -482,7 +498,29 @@ func (p *Parser) collectSpecs(
 		return err
 	}
 
+	// the file may have been reached through a shorter path while it was being read
+	retrieved.mutex.Lock()
 	fi.imports = children
+	fi.expanded = true
+	currentImportDepth = fi.depth
+	retrieved.mutex.Unlock()
+
+	return p.collectImports(ctx, vt, source, children, reader, retrieved, maxImportDepth, currentImportDepth)
+}
+
+// collectImports retrieves (in parallel) the files that source, found at currentImportDepth, imports.
+func (p *Parser) collectImports(
+	ctx context.Context,
+	vt uint64,
+	source importDef,
+	children []importDef,
+	reader reader.Reader,
+	retrieved *retrievedList,
+	maxImportDepth, currentImportDepth int,
+) error {
+	if len(children) == 0 {
+		return nil
+	}
 
 	ctx = verifSpawn(ctx, vt, len(children))
 	g := new(errgroup.Group)
@@ -494,7 +532,7 @@ func (p *Parser) collectSpecs(
 	}
 
 	verifEvent(vt, "wait", source.filename, currentImportDepth, len(children))
-	err = g.Wait()
+	err := g.Wait()
 	if err != nil {
 		return syslutil.Exitf(ImportError, fmt.Sprintf(
 			"error reading %#v: \n%v", source.filename, err,
